@@ -358,7 +358,7 @@ func c12Rewrites(n int) []c12Rewrite {
 			return g, nd
 		}})
 	}
-	for _, ext := range []string{"foo", "foo=bar", `foo="a,b"`, `foo="no-store"`, `foo="x, no-cache, max-age=0"`, `community="UCI"`} {
+	for _, ext := range []string{"foo", "foo=bar", `foo="a,b"`, `foo="no-store"`, `foo="x, no-cache, max-age=0"`, `community="UCI"`, `root="C:\\"`, `q="a\"b, no-store"`} {
 		for pos := 0; pos <= n; pos++ {
 			ext, pos := ext, pos
 			rs = append(rs, c12Rewrite{"ext", fmt.Sprintf("extension %s at %d", ext, pos), func(f c12Form, dec int) (c12Form, int) {
